@@ -208,5 +208,405 @@ theorem inData_le_liveR {α} (l : List (Th α)) : cnt inData l ≤ cnt liveR l :
     | run l => simp [fData] at h
     | wait o l => simp_all [fData, fLive]
 
---STEP--
+set_option hygiene false in
+macro "leaf " x:term : tactic => `(tactic| (
+  have e1 := e1 $x; have e2 := e2 $x; have e3 := e3 $x; have e4 := e4 $x; have e5 := e5 $x; have e6 := e6 $x
+  simp [atG2, atT2, preT1, mayErr, liveR, inData, fG2, fT2, fPreT1, fErr, fLive, fData, hasTerm, hasErr]
+    at e1 e2 e3 e4 e5 e6))
+
+set_option hygiene false in
+macro "wfset" : tactic => `(tactic| (
+  apply forall_set hwf
+  simp_all [okThread, okScript, okFrame, okLoc, okWait]))
+
+set_option hygiene false in
+macro "fin" "[" ts:Lean.Parser.Tactic.simpLemma,* "]" : tactic => `(tactic| (
+  constructor <;> simp only [$ts,*, if_true, if_false, Bool.false_eq_true, machine, enter, Obs.onOut, onRet_eq, sinkMsg_greets, sinkMsg_datas, sinkMsg_terms, sinkMsg_errs,
+      sinkMsg_upTerms, sinkMsg_inFlight, sinkMsg_twd, sinkMsg_panics, sinkMsg_disposed] <;> first
+    | omega
+    | wfset
+    | assumption
+    | (simpa using ho)))
+
+set_option linter.unusedSimpArgs false in
+theorem inv_pstep {α} (n E0 : Nat) (s s' : PSys St (Loc α) α α) (t : Nat) (hi : Inv n E0 s)
+    (hs : pstep (machine α n) s t = some s') : Inv n E0 s' := by
+  unfold pstep at hs
+  cases hth : s.threads[t]? with
+  | none => simp [hth] at hs
+  | some th =>
+    obtain ⟨hlt, hget⟩ := List.getElem?_eq_some_iff.mp hth
+    simp only [hth] at hs
+    have hmem : th ∈ s.threads := hget ▸ List.getElem_mem hlt
+    have hok := hi.wf _ hmem
+    have e1 := fun x => cnt_set atG2 s.threads t hlt x
+    have e2 := fun x => cnt_set atT2 s.threads t hlt x
+    have e3 := fun x => cnt_set preT1 s.threads t hlt x
+    have e4 := fun x => cnt_set mayErr s.threads t hlt x
+    have e5 := fun x => cnt_set liveR s.threads t hlt x
+    have e6 := fun x => cnt_set inData s.threads t hlt x
+    simp only [hget] at e1 e2 e3 e4 e5 e6
+    obtain ⟨hwf, hpan, hg1, hg0, ht1, ht0, hx, he, hr, hf, ho⟩ := hi
+    clear hth hget hmem
+    have hdl := inData_le_liveR s.threads
+    have hO : E0 = 0 → s.st.ended = false ∧ s.obs.upTerms = 0 ∧ s.obs.afterTerm = 0 ∧ s.obs.termWhileData = false ∧
+        s.obs.errs = 0 ∧ cnt mayErr s.threads = 0 := fun h => by
+      obtain ⟨a, b, c, d⟩ := ho h; exact ⟨a, b, c, d, by omega, by omega⟩
+    obtain ⟨script, frame⟩ := th
+    cases frame with
+    | none =>
+      cases script with
+      | nil => simp at hs
+      | cons i rest =>
+        simp only [] at hs
+        split at hs
+        · cases hs
+          leaf ⟨[], none⟩
+          constructor <;> simp only [] <;> first
+            | omega
+            | wfset
+            | assumption
+        · cases hs
+          cases i with
+          | subscribe k => simp [okThread, okScript] at hok
+          | sinkUp k u => simp [okThread, okScript] at hok
+          | srcGreet i =>
+            leaf ⟨rest, some (.run (.g0 i))⟩
+            constructor <;> simp only [machine, enter] <;> first
+              | omega
+              | wfset
+              | assumption
+          | srcDown i d =>
+            cases d with
+            | data a =>
+              leaf ⟨rest, some (.run (.data a))⟩
+              constructor <;> simp only [machine, enter] <;> first
+                | omega
+                | wfset
+                | assumption
+            | term =>
+              obtain rfl : rest = [] := by simpa [okThread, okScript, okFrame] using hok
+              leaf ⟨[], some (.run (.t0 i))⟩
+              constructor <;> simp only [machine, enter] <;> first
+                | omega
+                | wfset
+                | assumption
+            | err e =>
+              obtain rfl : rest = [] := by simpa [okThread, okScript, okFrame] using hok
+              leaf ⟨[], some (.run (.e0 i e))⟩
+              constructor <;> simp only [machine, enter] <;> first
+                | omega
+                | wfset
+                | assumption
+    | some fr =>
+      cases fr with
+      | wait o l =>
+        cases hs
+        cases l
+        all_goals try (exfalso; simp [okThread, okFrame, okWait] at hok; done)
+        · -- continuation `done`
+          leaf ⟨script, some (.run .done)⟩
+          by_cases hd : isDataOut o = true
+          · simp [hd] at e5 e6
+            fin [hd]
+          · simp [hd] at e5 e6
+            fin [hd]
+        · -- continuation `eLoop`
+          rename_i i j e
+          obtain rfl : script = [] := by simp [okThread, okFrame, okWait] at hok; exact hok.2
+          leaf ⟨[], some (.run (.eLoop i j e))⟩
+          by_cases hd : isDataOut o = true
+          · simp [hd] at e5 e6
+            fin [hd]
+          · simp [hd] at e5 e6
+            fin [hd]
+      | run l =>
+        cases l
+        all_goals try (exfalso; simp [okThread, okFrame, okLoc] at hok; done)
+        case done =>
+          simp [machine, step] at hs
+          cases hs
+          leaf ⟨script, none⟩
+          fin [if_true]
+        case g0 i =>
+          simp only [machine, step, Bool.true_and] at hs
+          by_cases hen : s.st.ended = true
+          · rw [if_pos hen] at hs
+            cases hs
+            leaf ⟨script, some (.wait (.srcUp i .term) .done)⟩
+            have hE0 : E0 ≠ 0 := fun h => by simp [(hO h).1] at hen
+            fin [if_true]
+          · rw [if_neg hen] at hs
+            cases hs
+            leaf ⟨script, some (.run (.g1 i))⟩
+            fin [if_true]
+        case g1 i =>
+          simp only [machine, step] at hs
+          cases hs
+          by_cases h0 : s.st.startCount = 0
+          · have : (s.st.startCount + 1 == 1) = true := by simp [h0]
+            simp only [this, if_true]
+            leaf ⟨script, some (.run .g2)⟩
+            fin [if_true]
+          · have : (s.st.startCount + 1 == 1) = false := by simp [h0]
+            simp only [this]
+            leaf ⟨script, some (.run .done)⟩
+            fin [if_true]
+        case t0 i =>
+          simp only [machine, step] at hs
+          cases hs
+          obtain rfl : script = [] := by simp [okThread, okFrame, okLoc] at hok; exact hok.2
+          leaf ⟨[], some (.run .t1)⟩
+          fin [if_true]
+        case t1 =>
+          simp only [machine, step] at hs
+          cases hs
+          obtain rfl : script = [] := by simp [okThread, okFrame, okLoc] at hok; exact hok.2
+          by_cases h0 : s.st.endCount + 1 = n
+          · have : (s.st.endCount + 1 == n) = true := by simp [h0]
+            simp only [this, if_true]
+            leaf ⟨[], some (.run .t2)⟩
+            fin [if_true]
+          · have : (s.st.endCount + 1 == n) = false := by simp [h0]
+            simp only [this]
+            leaf ⟨[], some (.run .done)⟩
+            fin [if_true]
+        case e0 i e =>
+          simp only [machine, step] at hs
+          cases hs
+          obtain rfl : script = [] := by simp [okThread, okFrame, okLoc] at hok; exact hok.2
+          leaf ⟨[], some (.run (.eLoop i 0 e))⟩
+          have hE0 : E0 ≠ 0 := by omega
+          fin [if_true]
+        case eLoop i j e =>
+          simp only [machine, step] at hs
+          obtain rfl : script = [] := by simp [okThread, okFrame, okLoc] at hok; exact hok.2
+          by_cases hj : j < n
+          · by_cases hc : (j != i && phAt s.st.slots j) = true
+            · rw [if_pos hj, if_pos hc] at hs
+              cases hs
+              leaf ⟨[], some (.wait (.srcUp j .term) (.eLoop i (j + 1) e))⟩
+              have hE0 : E0 ≠ 0 := by omega
+              fin [if_true]
+            · rw [if_pos hj, if_neg hc] at hs
+              cases hs
+              leaf ⟨[], some (.run (.eLoop i (j + 1) e))⟩
+              have hE0 : E0 ≠ 0 := by omega
+              fin [if_true]
+          · rw [if_neg hj] at hs
+            cases hs
+            leaf ⟨[], some (.run (.eOut e))⟩
+            have hE0 : E0 ≠ 0 := by omega
+            fin [if_true]
+        case eOut e =>
+          simp only [machine, step] at hs
+          cases hs
+          obtain rfl : script = [] := by simp [okThread, okFrame, okLoc] at hok; exact hok.2
+          leaf ⟨[], some (.wait (.down 0 (.err e)) .done)⟩
+          have hE0 : E0 ≠ 0 := by omega
+          fin [if_true]
+        case g2 =>
+          simp only [machine, step] at hs
+          cases hs
+          leaf ⟨script, some (.wait (.greet 0) .done)⟩
+          have hat : E0 = 0 → s.obs.sinkMsg.afterTerm = 0 := fun h => by
+            rw [sinkMsg_afterTerm _ (by omega) (hO h).2.2.2.2.1]; exact (hO h).2.2.1
+          constructor <;> simp only [Obs.onOut, sinkMsg_greets, sinkMsg_datas, sinkMsg_terms, sinkMsg_errs,
+              sinkMsg_upTerms, sinkMsg_inFlight, sinkMsg_twd, sinkMsg_panics, sinkMsg_disposed] <;> first
+            | omega
+            | wfset
+            | assumption
+            | exact fun h => ⟨(ho h).1, (ho h).2.1, hat h, (ho h).2.2.2⟩
+        case data a =>
+          simp only [machine, step] at hs
+          cases hs
+          leaf ⟨script, some (.wait (.down 0 (.data a)) .done)⟩
+          have hat : E0 = 0 → s.obs.sinkMsg.afterTerm = 0 := fun h => by
+            rw [sinkMsg_afterTerm _ (by omega) (hO h).2.2.2.2.1]; exact (hO h).2.2.1
+          constructor <;> simp only [Obs.onOut, sinkMsg_greets, sinkMsg_datas, sinkMsg_terms, sinkMsg_errs,
+              sinkMsg_upTerms, sinkMsg_inFlight, sinkMsg_twd, sinkMsg_panics, sinkMsg_disposed] <;> first
+            | omega
+            | wfset
+            | assumption
+            | exact fun h => ⟨(ho h).1, (ho h).2.1, hat h, (ho h).2.2.2⟩
+        case t2 =>
+          simp only [machine, step] at hs
+          cases hs
+          obtain rfl : script = [] := by simp [okThread, okFrame, okLoc] at hok; exact hok.2
+          leaf ⟨[], some (.wait (.down 0 .term) .done)⟩
+          have hat : E0 = 0 → s.obs.sinkMsg.afterTerm = 0 := fun h => by
+            rw [sinkMsg_afterTerm _ (by omega) (hO h).2.2.2.2.1]; exact (hO h).2.2.1
+          have hfl : s.obs.inFlight = 0 := by omega
+          constructor <;> simp only [Obs.onOut, sinkMsg_greets, sinkMsg_datas, sinkMsg_terms, sinkMsg_errs,
+              sinkMsg_upTerms, sinkMsg_inFlight, sinkMsg_twd, sinkMsg_panics, sinkMsg_disposed] <;> first
+            | omega
+            | wfset
+            | assumption
+            | exact fun h => ⟨(ho h).1, (ho h).2.1, hat h, by simp [hfl, (ho h).2.2.2]⟩
+
+/-! ## The initial configuration -/
+
+theorem hasTerm_map_data {α} (i : Nat) (ds : List α) (fin : List (In α)) :
+    hasTerm (ds.map (fun a => In.srcDown i (Down.data a)) ++ fin) = hasTerm fin := by
+  induction ds with
+  | nil => rfl
+  | cons a ds ih => simp [hasTerm, ih]
+
+theorem hasErr_map_data {α} (i : Nat) (ds : List α) (fin : List (In α)) :
+    hasErr (ds.map (fun a => In.srcDown i (Down.data a)) ++ fin) = hasErr fin := by
+  induction ds with
+  | nil => rfl
+  | cons a ds ih => simp [hasErr, ih]
+
+theorem okScript_map_data {α} (i : Nat) (ds : List α) (fin : List (In α)) (h : okScript fin) :
+    okScript (ds.map (fun a => In.srcDown i (Down.data a)) ++ fin) := by
+  induction ds with
+  | nil => exact h
+  | cons a ds ih => simpa [okScript] using ih
+
+theorem memberScript_facts {α} {i : Nat} {fails : Bool} {sc : List (In α)} (h : MemberScript i fails sc) :
+    okScript sc ∧ (hasTerm sc && hasErr sc) = false ∧ (fails = false → hasErr sc = false) := by
+  cases sc with
+  | nil => exact h.elim
+  | cons g rest =>
+    obtain ⟨rfl, ds, fin, rfl, hfin⟩ := h
+    simp only [okScript, hasTerm, hasErr, isTermIn_greet, isErrIn_greet, Bool.false_or, hasTerm_map_data, hasErr_map_data]
+    rcases hfin with rfl | rfl | ⟨hf, e, rfl⟩
+    · exact ⟨okScript_map_data i ds [] trivial, rfl, fun _ => rfl⟩
+    · exact ⟨okScript_map_data i ds _ rfl, rfl, fun _ => rfl⟩
+    · refine ⟨okScript_map_data i ds _ rfl, rfl, fun h => ?_⟩
+      rw [hf] at h; cases h
+
+theorem members_mem {α} {n : Nat} {fails : Bool} {ths : List (Th α)} (h : Members n fails ths) :
+    ∀ th ∈ ths, th.frame = none ∧ ∃ i, MemberScript i fails th.script := by
+  intro th hth
+  obtain ⟨i, hi, rfl⟩ := List.mem_iff_getElem.mp hth
+  exact ⟨(h.2 i hi).1, i, (h.2 i hi).2⟩
+
+theorem cnt_eq_zero {α} (p : α → Bool) (l : List α) (h : ∀ a ∈ l, p a = false) : cnt p l = 0 := by
+  unfold cnt
+  rw [List.countP_eq_zero]
+  intro a ha; simp [h a ha]
+
+theorem cnt_excl {α} (p q : α → Bool) (l : List α) (h : ∀ a ∈ l, (p a && q a) = false) :
+    cnt p l + cnt q l ≤ l.length := by
+  unfold cnt
+  induction l with
+  | nil => simp
+  | cons a l ih =>
+    have ha := h a (List.mem_cons_self ..)
+    have ih := ih (fun b hb => h b (List.mem_cons_of_mem _ hb))
+    simp only [List.countP_cons, List.length_cons]
+    cases hp : p a <;> cases hq : q a <;> simp_all <;> omega
+
+/-- number of members whose script ends with `Error` -/
+def nFail {α} (ths : List (Th α)) : Nat := ths.countP (fun th => hasErr th.script)
+
+theorem cnt_mayErr_start {α} {n : Nat} {fails : Bool} {ths : List (Th α)} (h : Members n fails ths) :
+    cnt mayErr ths = nFail ths := by
+  unfold cnt nFail
+  apply List.countP_congr
+  intro th hth
+  have := (members_mem h th hth).1
+  simp [mayErr, this, fErr]
+
+theorem nFail_nofail {α} {n : Nat} {ths : List (Th α)} (h : Members n false ths) : nFail ths = 0 := by
+  unfold nFail
+  rw [List.countP_eq_zero]
+  intro th hth
+  obtain ⟨_, i, hm⟩ := members_mem h th hth
+  simp [(memberScript_facts hm).2.2 rfl]
+
+theorem inv_init {α} (n : Nat) (fails : Bool) (ths : List (Th α)) (h : Members n fails ths) :
+    Inv n (nFail ths) (start n ths) := by
+  have hm := members_mem h
+  have z1 : cnt atG2 ths = 0 := cnt_eq_zero _ _ (fun th hth => by simp [atG2, (hm th hth).1, fG2])
+  have z2 : cnt atT2 ths = 0 := cnt_eq_zero _ _ (fun th hth => by simp [atT2, (hm th hth).1, fT2])
+  have z3 : cnt inData ths = 0 := cnt_eq_zero _ _ (fun th hth => by simp [inData, (hm th hth).1, fData])
+  have z4 : cnt preT1 ths + cnt mayErr ths ≤ ths.length := cnt_excl _ _ _ (fun th hth => by
+    obtain ⟨hf, i, hs⟩ := hm th hth
+    simpa [preT1, mayErr, hf, fPreT1, fErr] using (memberScript_facts hs).2.1)
+  have z5 : cnt liveR ths ≤ ths.length := List.countP_le_length
+  have z6 := cnt_mayErr_start h
+  have hl := h.1
+  constructor <;> simp only [start] <;> first
+    | omega
+    | rfl
+    | (intro th hth
+       obtain ⟨hf, i, hs⟩ := hm th hth
+       exact ⟨(memberScript_facts hs).1, by simp [hf, okFrame]⟩)
+    | (intro _; simp; done)
+
+theorem merge_par_inv {α : Type} (n : Nat) (fails : Bool) (ths : List (Thread (Loc α) α α)) (h : Members n fails ths) :
+    ∀ s, PReach (machine α n) (start n ths) s → Inv n (nFail ths) s := by
+  intro s hr
+  induction hr with
+  | init => exact inv_init n fails ths h
+  | step t _ hs ih => exact inv_pstep n _ _ _ t ih hs
+
+/-! ## C18 (merge) -/
+
+/-- C18 (merge), safety.  For every member count, all scripts and every schedule: the sink is greeted at most once, completed
+(`Terminate`) at most once, never both completed and failed, receives at most as many `Error`s as there are failing members,
+nothing panics.  NOTE: `terms + errs ≤ 1` does NOT hold when two members fail concurrently (`merge_par_two_errors`). -/
+theorem merge_par_safe {α : Type} (n : Nat) (fails : Bool) (ths : List (Thread (Loc α) α α)) (h : Members n fails ths) :
+    ∀ s, PReach (machine α n) (start n ths) s →
+      s.obs.greets ≤ 1 ∧ s.obs.terms ≤ 1 ∧ (s.obs.terms = 0 ∨ s.obs.errs = 0) ∧ s.obs.errs ≤ nFail ths ∧
+      s.obs.panics = 0 ∧ (fails = false → s.obs.errs = 0) := by
+  intro s hr
+  obtain ⟨_, hpan, hg1, _, ht1, ht0, hx, he, _, _, _⟩ := merge_par_inv n fails ths h s hr
+  refine ⟨by omega, by omega, by omega, by omega, hpan, fun hf => ?_⟩
+  subst hf
+  have := nFail_nofail h
+  omega
+
+/-- C18 (merge), safety as originally stated, for at most one failing member (in particular when nobody fails). -/
+theorem merge_par_safe_one {α : Type} (n : Nat) (fails : Bool) (ths : List (Thread (Loc α) α α)) (h : Members n fails ths)
+    (h1 : nFail ths ≤ 1) :
+    ∀ s, PReach (machine α n) (start n ths) s →
+      s.obs.greets ≤ 1 ∧ s.obs.terms + s.obs.errs ≤ 1 ∧ s.obs.panics = 0 ∧ (fails = false → s.obs.errs = 0) := by
+  intro s hr
+  obtain ⟨a, b, c, d, e, f⟩ := merge_par_safe n fails ths h s hr
+  exact ⟨a, by omega, e, f⟩
+
+theorem merge_par_safe_nofail {α : Type} (n : Nat) (ths : List (Thread (Loc α) α α)) (h : Members n false ths) :
+    ∀ s, PReach (machine α n) (start n ths) s →
+      s.obs.greets ≤ 1 ∧ s.obs.terms + s.obs.errs ≤ 1 ∧ s.obs.panics = 0 ∧ s.obs.errs = 0 := by
+  intro s hr
+  obtain ⟨a, b, c, d⟩ := merge_par_safe_one n false ths h (by rw [nFail_nofail h]; omega) s hr
+  exact ⟨a, b, c, d rfl⟩
+
+/-- C18 (merge), no failing member: completion is delivered only after every data delivery has returned, nothing follows it,
+and no member is ever disposed. -/
+theorem merge_par_order {α : Type} (n : Nat) (ths : List (Thread (Loc α) α α)) (h : Members n false ths) :
+    ∀ s, PReach (machine α n) (start n ths) s →
+      s.obs.termWhileData = false ∧ s.obs.afterTerm = 0 ∧ s.obs.upTerms = 0 := by
+  intro s hr
+  obtain ⟨_, b, c, d⟩ := (merge_par_inv n false ths h s hr).o (nFail_nofail h)
+  exact ⟨d, c, b⟩
+
+/-! ## Counterexamples -/
+
+theorem twoFail_members : Members 2 true twoFail := by
+  refine ⟨rfl, fun i hi => ?_⟩
+  have : i = 0 ∨ i = 1 := by simp [twoFail] at hi; omega
+  rcases this with rfl | rfl
+  · exact ⟨rfl, rfl, [], [.srcDown 0 (.err 7)], rfl, Or.inr (Or.inr ⟨rfl, 7, rfl⟩)⟩
+  · exact ⟨rfl, rfl, [], [.srcDown 1 (.err 8)], rfl, Or.inr (Or.inr ⟨rfl, 8, rfl⟩)⟩
+
+/-- `terms + errs ≤ 1` is FALSE with two failing members: both `Error` handlers are entered before either has stored `ended`;
+the sink receives two `Error`s (the second one after its terminal). -/
+theorem merge_par_two_errors :
+    ∃ ths, Members 2 true ths ∧ ∃ s, PReach (machine Nat 2) (start 2 ths) s ∧ s.obs.errs = 2 ∧ s.obs.afterTerm = 1 := by
+  have h : ∃ s, runSched (machine Nat 2) (start 2 twoFail) twoFailSched = some s ∧ s.obs.errs = 2 ∧ s.obs.afterTerm = 1 :=
+    ⟨_, rfl, rfl, rfl⟩
+  obtain ⟨s, h1, h2⟩ := h
+  exact ⟨twoFail, twoFail_members, s, runSched_reach _ _ _ _ h1, h2⟩
+
 end Cb.Merge
+
+#print axioms Cb.Merge.merge_par_safe
+#print axioms Cb.Merge.merge_par_safe_one
+#print axioms Cb.Merge.merge_par_safe_nofail
+#print axioms Cb.Merge.merge_par_order
+#print axioms Cb.Merge.merge_par_two_errors
